@@ -32,6 +32,18 @@ Theorem C15_every_record_one_snapshot :
 Proof. exact one_snapshot. Qed.
 Print Assumptions C15_every_record_one_snapshot.
 
+(* Never a mixture, in plain form: every delivery of the record, anywhere in the
+   trace, carries the tag of that one snapshot's appender table and an index of
+   that snapshot's route. *)
+Theorem C15_never_a_mixture :
+  forall reent c0 progs sch tid k s pre post d,
+    trace (Swap.run reent sch (init_state c0 progs)) = pre ++ ELoad (tid, k) s :: post ->
+    In d (deliveries (tid, k) (trace (Swap.run reent sch (init_state c0 progs)))) ->
+    fst d = fst s /\
+    exists tg L, nth_error (nth tid progs []) k = Some (OLog tg L) /\ In d (route s tg L).
+Proof. exact single_tag. Qed.
+Print Assumptions C15_never_a_mixture.
+
 (* A log call that loads after a store (set_config's linearisation point; a
    fortiori after set_config returned), with no later store in between, uses
    exactly the stored configuration. *)
